@@ -1824,6 +1824,25 @@ func (ctx Ctx) multipleAssignStmt(s *ast.AssignStmt) coq.Binding {
 	if len(s.Lhs) > 4 {
 		ctx.unsupported(s, "destructuring more than 4 return values")
 	}
+	// Go evaluates the operands of index expressions and pointer
+	// indirections on the left before it assigns anything; here each target is
+	// evaluated when its turn comes, which is the same only if no target
+	// depends on an earlier one
+	assigned := make(map[types.Object]bool)
+	for _, lhs := range s.Lhs {
+		if ident, ok := lhs.(*ast.Ident); ok {
+			if obj := ctx.info.ObjectOf(ident); obj != nil {
+				assigned[obj] = true
+			}
+			continue
+		}
+		ast.Inspect(lhs, func(n ast.Node) bool {
+			if ident, ok := n.(*ast.Ident); ok && assigned[ctx.info.ObjectOf(ident)] {
+				ctx.unsupported(s, "assignment target %s uses %s, which the same statement assigns", ctx.printGo(lhs), ident.Name)
+			}
+			return true
+		})
+	}
 	names := make([]string, len(s.Lhs))
 	for i := 0; i < len(names); i += 1 {
 		names[i] = fmt.Sprintf("%d_ret", i)
